@@ -24,8 +24,12 @@ struct Cb {
 	void operator()(uint32_t a) const { g_tr.add(id, a, 0); if(id == 7777u) adder_hook(); }
 	bool operator==(const Cb & o) const { return id == o.id; }
 };
-struct Pol { using Threading = VThreading; using Callback = Cb; };
-struct HPol { using Threading = VThreading; };
+#ifndef THREADING
+#define THREADING VThreading
+#define INSTRUMENTED_CV 1
+#endif
+struct Pol { using Threading = THREADING; using Callback = Cb; };
+struct HPol { using Threading = THREADING; };
 using HT = eventpp::HeterTuple<void(uint32_t), void(uint32_t, uint32_t)>;
 
 #if OBJ == 0
@@ -154,7 +158,9 @@ static void observe()
 #if IS_QUEUE
 		vf_assert(obj(i)->emptyQueue() == (m.np[i] == 0), 125);
 		// waiting with a zero timeout reports whether something is pending (notification is enabled)
+#ifdef INSTRUMENTED_CV
 		vf_assert(obj(i)->waitFor(std::chrono::milliseconds(0)) == (m.np[i] != 0), 126);
+#endif
 #endif
 	}
 }
@@ -176,7 +182,11 @@ extern "C" void harness()
 #if OBJ == 0
 	{	// push the source's generation counter to an arbitrary position (not at the wrap: that is C19)
 		uint32_t c0 = vf_nondet_u32(); vf_assume(c0 < 0xfffffff0u);
+#ifdef INSTRUMENTED_CV
 		obj(0)->currentCounter.value = c0;
+#else
+		obj(0)->currentCounter = c0;
+#endif
 	}
 #endif
 	g->hid[0] = g->nextid; g->hown[0] = 0; g->h[0] = add(0, g->nextid); m.ids[0][m.n[0]++] = g->nextid++;
